@@ -28,6 +28,7 @@ import (
 	"sort"
 	"strconv"
 	"strings"
+	"time"
 
 	"github.com/gofiber/fiber/v3"
 	"github.com/gofiber/fiber/v3/log"
@@ -82,15 +83,38 @@ func serve(cfg string, raw []byte) (out []byte, panicked string) {
 		a = apps["d"]
 	}
 	c := newConn(raw)
-	defer func() {
-		if r := recover(); r != nil {
-			panicked = strings.ReplaceAll(strings.ReplaceAll(fmt.Sprint(r), "\t", " "), "\n", " ")
-			out = c.w.Bytes()
-		}
+	// The server runs in its own goroutine under a watchdog: "neither crashes nor hangs" — a request
+	// that gets no reply within hangTimeout is the observation "hang" (the stuck goroutine cannot be
+	// stopped; after maxHangs of them the run stops generating, see main).
+	type res struct {
+		out      []byte
+		panicked string
+	}
+	done := make(chan res, 1)
+	go func() {
+		defer func() {
+			if r := recover(); r != nil {
+				done <- res{c.w.Bytes(), strings.ReplaceAll(strings.ReplaceAll(fmt.Sprint(r), "\t", " "), "\n", " ")}
+			}
+		}()
+		_ = a.Server().ServeConn(c)
+		done <- res{c.w.Bytes(), ""}
 	}()
-	_ = a.Server().ServeConn(c)
-	return c.w.Bytes(), ""
+	select {
+	case r := <-done:
+		return r.out, r.panicked
+	case <-time.After(hangTimeout):
+		hangs++
+		return nil, "hang: no reply within " + hangTimeout.String()
+	}
 }
+
+const (
+	hangTimeout = 4 * time.Second
+	maxHangs    = 3
+)
+
+var hangs int
 
 func renderReply(raw []byte, panicked string) string {
 	if panicked != "" {
@@ -580,6 +604,10 @@ func main() {
 	for i := 0; i < o.N; i++ {
 		r := root.Fork(uint64(i))
 		id := fmt.Sprintf("s%d.%d", o.Seed, i)
+		if hangs >= maxHangs {
+			w.Count("stopped-after-hangs")
+			break
+		}
 		kind, in := genCase(r, w)
 		w.Count("kind-" + kind)
 		runCase(w, id, kind, in)
